@@ -1173,6 +1173,8 @@ func (x *Exec) model(a *activation, b *ssa.BasicBlock, i int, in *ssa.Call, call
 		return true
 	case "sort.Stable", "sort.Sort":
 		return x.modelSort(a, b, i, in, args, fr, h, p)
+	case "sort.Slice", "sort.SliceStable":
+		return x.modelSortFunc(a, b, i, in, args, fr, h, p)
 	case "sort.Float64s", "sort.Strings":
 	default:
 		if totalPure(name) {
@@ -1276,6 +1278,68 @@ func (x *Exec) modelSort(a *activation, b *ssa.BasicBlock, i int, in *ssa.Call, 
 	}
 	// one (abstract) call, whose effects are idempotent under repetition
 	x.runUp(less, []AV{recv, {k: 'N'}, {k: 'N'}}, h, p, &stackLink{fr: fr, up: a.up}, func(rets []AV, h2 *Heap, p2 pathInfo, fin *frame) {
+		a.cont(b, i+1, fr.clone(), h2, p2)
+	})
+	return true
+}
+
+// modelSortFunc: sort.Slice / sort.SliceStable(s, less) calls less zero or
+// more times and permutes s: every cell of a concrete list can afterwards hold
+// any of its elements.
+func (x *Exec) modelSortFunc(a *activation, b *ssa.BasicBlock, i int, in *ssa.Call, args []AV, fr *frame, h *Heap, p pathInfo) bool {
+	if len(args) != 2 {
+		return false
+	}
+	lf := args[1]
+	if lf.k != 'U' || lf.fn == nil || lf.fn.Blocks == nil || len(lf.fn.Params) != 2 {
+		x.gap("sort with a less function that is not a known function literal", in.Pos())
+		return false
+	}
+	permute := func(hh *Heap) {
+		sv := args[0]
+		if sv.obj == 0 {
+			return
+		}
+		o := hh.objs[sv.obj]
+		if o == nil || o.kind != 'l' || len(o.elems) < 2 {
+			return
+		}
+		j := o.elems[0]
+		for _, e := range o.elems[1:] {
+			j = joinAV(j, e)
+		}
+		no := *o
+		no.elems = make([]AV, len(o.elems))
+		for k := range no.elems {
+			no.elems[k] = j
+		}
+		hh.objs[sv.obj] = &no
+	}
+	bind := func(hh *Heap) bool {
+		x.pendingFV = nil
+		if len(lf.fn.FreeVars) == 0 {
+			return true
+		}
+		if lf.obj != 0 {
+			if o := hh.objs[lf.obj]; o != nil && len(o.fields) == len(lf.fn.FreeVars) {
+				x.pendingFV = append([]AV(nil), o.fields...)
+				return true
+			}
+		}
+		return false
+	}
+	// zero calls (fewer than two elements)
+	{
+		f2, h2 := fr.clone(), h.clone()
+		a.cont(b, i+1, f2, h2, p)
+	}
+	// one (abstract) call, whose effects are idempotent under repetition
+	if !bind(h) {
+		x.gap("less function entered without its captured variables", in.Pos())
+		return false
+	}
+	x.runUp(lf.fn, []AV{{k: 'N'}, {k: 'N'}}, h, p, &stackLink{fr: fr, up: a.up}, func(rets []AV, h2 *Heap, p2 pathInfo, fin *frame) {
+		permute(h2)
 		a.cont(b, i+1, fr.clone(), h2, p2)
 	})
 	return true
